@@ -107,6 +107,24 @@ func (b *genBody) Read(p []byte) (int, error) {
 }
 func (b *genBody) Close() error { b.used = true; return nil }
 
+// seekGenBody: a request body that could be rewound (an *os.File, a spooled upload, a bytes.Reader with a Close).  The
+// property wants every retry's body from GetBody - nobody may rewind the consumed one instead; a rewound body reads as
+// its generation again, which the request log then shows.
+type seekGenBody struct{ *genBody }
+
+func (b seekGenBody) Seek(off int64, whence int) (int64, error) {
+	b.used = false
+	return b.r.Seek(off, whence)
+}
+
+// reqBody: the body of generation gen, seekable in a deterministic half of the cases
+func reqBody(gen int, seekable bool) io.ReadCloser {
+	if seekable {
+		return seekGenBody{newGenBody(gen)}
+	}
+	return newGenBody(gen)
+}
+
 // charErr is an injected error value with a character; idx/1000 selects it (see scriptedErr).
 type charErr struct{ idx uint64 }
 
@@ -509,6 +527,8 @@ func (r *connRun) RoundTrip(req *http.Request) (*http.Response, error) {
 			gen, _ = strconv.Atoi(string(data[4:]))
 		} else if gb, ok := req.Body.(*genBody); ok {
 			gen = 1000 + gb.gen // a consumed body was sent again
+		} else if sb, ok := req.Body.(seekGenBody); ok {
+			gen = 1000 + sb.gen
 		} else {
 			gen = 1999
 		}
@@ -687,12 +707,13 @@ func execConnect(in val.V) val.V {
 
 		var body io.Reader
 		method := http.MethodGet
+		seekable := len(val.String(in))%2 == 0
 		switch run.gbKind {
 		case 0:
 		case 1:
 			body = http.NoBody
 		default:
-			body = newGenBody(0)
+			body = reqBody(0, seekable)
 			method = http.MethodPost
 		}
 		req, err := http.NewRequestWithContext(ctx, method, "http://verif.invalid/events", body)
@@ -707,7 +728,7 @@ func execConnect(in val.V) val.V {
 					return nil, scriptedErr(run.gbErr)
 				}
 				run.gbCalls++
-				return newGenBody(run.gbCalls), nil
+				return reqBody(run.gbCalls, seekable), nil
 			}
 		} else if run.gbKind == 2 {
 			req.GetBody = nil
